@@ -50,6 +50,9 @@ def cases(tier, seed):
             if tier == "quick" and (i + [None, 5.0, 0.5].index(k)) % 3:
                 continue
             yield {"def": d, "k": k, "seed": seed, "tier": tier}
+    # the adapter's step is fixed (0.1) whatever the filter's max_dt_sec / CSE setting
+    for i, (mdt, cse) in enumerate([(0.05, True), (0.25, False), (1.0, True)]):
+        yield {"def": ds[(4 * i + 1) % len(ds)], "k": 5.0, "seed": seed, "tier": tier, "max_dt_sec": mdt, "cse": cse}
     # parameters changed between calls: the estimator must behave like a freshly created one with the current parameters
     for i in (3, 7, 11):
         yield {"kind": "param-sequence", "def": ds[i], "seed": seed, "tier": tier}
@@ -178,7 +181,10 @@ def eval_case(case):
         if not any(f["key"].startswith(key) for f in fails):
             fails.append({"key": f"{key}@{'x'.join(str(len(rs)) for _, rs in sorted(d['sensors']))}", "what": f"{tag}: {what}"})
 
-    cfg = pyimpl.config({"innovation_filtering": k})
+    cfgd = {"innovation_filtering": k}
+    if "max_dt_sec" in case:
+        cfgd.update({"max_dt_sec": case["max_dt_sec"], "cse": case["cse"]})
+    cfg = pyimpl.config(cfgd)
     est = fpy.SklearnEKFAdapter.Create(pyimpl.ui_model(d), pyimpl.pnoise(d), pyimpl.sensors(d), pyimpl.snoise(d), pyimpl.calmap(d),
                                        config=cfg)
     width = len(ref.ct) + sum(len(rs) for _, rs in d["sensors"])
